@@ -175,8 +175,8 @@ def run_case(ctx, i, rng):
                 if w > 1 and len(nm) > 240 and common.fenced(me, "long-bus-net-bit-identifier-too-long"):
                     ctx.count("fenced:long-bus-name")
                     w = 1
-                if w > 1 and not nm[0].isalnum() and common.fenced(me, "bus-net-ampersand-underscore-not-reassembled"):
-                    ctx.count("fenced:bus-name-starting-with-special-character")
+                if w > 1 and nm[0] == "\\" and common.fenced(me, "bus-net-backslash-name-not-reassembled"):
+                    ctx.count("fenced:bus-name-starting-with-backslash")
                     w = 1
                 cables.append(d.create_cable(nm, wires=w))
             scopes.append(("net", cables))
@@ -263,13 +263,13 @@ def probe_long_bus():
     return isinstance(r, RuntimeError) and "Expecting EDIF identifier" in str(r)
 
 
-def probe_amp_bus():
-    r = _rt(lambda top: top.create_cable("<b", wires=2))
+def probe_backslash_bus():
+    r = _rt(lambda top: top.create_cable("\\x", wires=2))
     if isinstance(r, Exception):
         return False
     names = sorted(c.name for c in r.libraries[0].definitions[0].cables)
-    return names == ["<b[0]", "<b[1]"]
+    return names == ["\\x[0]", "\\x[1]"]
 
 
 PROBES = {"long-bus-net-bit-identifier-too-long": probe_long_bus,
-          "bus-net-ampersand-underscore-not-reassembled": probe_amp_bus}
+          "bus-net-backslash-name-not-reassembled": probe_backslash_bus}
